@@ -223,7 +223,7 @@ fn unary_filters(ctx: &Ctx, k: u32) {
             // law: strip == lstrip after rstrip
             ctx.expect("strip", "law-strip-is-lstrip-of-rstrip", i, "rstrip | lstrip", &data, &[ds(both)]);
             ctx.expect("strip_newlines", "value", i, "strip_newlines", &data, &[ds(&chars.iter().filter(|c| **c != '\n' && **c != '\r').collect::<String>())]);
-            ctx.expect("newline_to_br", "value", i, "newline_to_br", &data, &[ds(&s.replace('\n', "<br />\n"))]);
+            ctx.expect("newline_to_br", "value", i, "newline_to_br", &data, &[ds(&s.replace('\n', "<br />\n")), ds(&s.replace('\n', "<br>\n")), ds(&s.replace('\n', "<br/>\n"))]);
             let sizes = [s.chars().count(), graphemes(&s).len()];
             ctx.expect("size", "counts-characters", i, "size", &data, &[format!("i:{}", sizes[0]), format!("i:{}", sizes[1])]);
             let g = graphemes(&s);
